@@ -40,6 +40,9 @@ def py_pools():
                P.Instantiate(P._or(P.MetaVar(1), P.MetaVar(2)), frozendict({2: P.Symbol('s0')})),
                P.Instantiate(P._or(P.MetaVar(1), P.MetaVar(2)), frozendict({2: P.MetaVar(0)})),
                P._or(P.MetaVar(1), P.MetaVar(2)), P._and(P.MetaVar(2), P.MetaVar(0)),
+               # two-digit metavariable numbers (2 < 10 as numbers, '10' < '2' as strings)
+               P.Implies(P.MetaVar(2), P.MetaVar(10)), P._and(P.MetaVar(10), P.MetaVar(2)),
+               P.Instantiate(P._or(P.MetaVar(10), P.MetaVar(2)), frozendict({2: P.Symbol('s0')})),
                P.Instantiate(P.Exists(0, P.Implies(P.MetaVar(1), P.MetaVar(0))), frozendict({0: P.MetaVar(1)})),
                P.Instantiate(P.ESubst(P.MetaVar(0), P.EVar(0), P.MetaVar(1)), frozendict({1: P.EVar(1)}))]
     return plugs, partial
